@@ -23,6 +23,23 @@ type fpath struct {
 	pc      []string
 	results []*term
 	panics  bool
+	effects []effect // stores to non-local memory, in program order (helpers expanded)
+}
+
+// effect is one store on a path: the normalised address path and value term
+// (stores to locals included: a by-value parameter is a local).
+type effect struct {
+	path string
+	val  *term
+}
+
+// finalEffects: the last value stored to each address path on the path.
+func (fp fpath) finalEffects() map[string]string {
+	m := map[string]string{}
+	for _, e := range fp.effects {
+		m[e.path] = e.val.String()
+	}
+	return m
 }
 
 func (fp fpath) pcKey() string {
@@ -126,6 +143,26 @@ func foldCond(t *term) int {
 				}
 				return 0
 			}
+			if t.name == "==" || t.name == "!=" {
+				// a reslice x[lo:hi] of positive constant length is not nil (it would have panicked otherwise)
+				for _, pr := range [][2]*term{{a, b}, {b, a}} {
+					n, sl := pr[0], pr[1]
+					if n.op == "sym" && n.name == "nil" && sl.op == "slice" && len(sl.args) == 3 {
+						lo, hi := sl.args[1], sl.args[2]
+						if lo.op == "sym" && lo.name == "_" {
+							lo = K(0)
+						}
+						if !(hi.op == "sym" && hi.name == "_") {
+							if d := O("add", hi, mulTerms(K(-1), lo)); isK(d) && d.c > 0 {
+								if t.name == "==" {
+									return 0
+								}
+								return 1
+							}
+						}
+					}
+				}
+			}
 			if (t.name == "==" || t.name == "!=") && a.op == "sym" && b.op == "sym" {
 				isConst := func(s string) bool {
 					return s == "true" || s == "false" || s == "nil" || strings.HasPrefix(s, "const:")
@@ -179,8 +216,8 @@ func (fl *flattener) run(f *ssa.Function, bind map[ssa.Value]*term, depth int) [
 		return nil
 	}
 	var out []fpath
-	var walk func(b, pred *ssa.BasicBlock, env map[ssa.Value]*term, pc []string, start int)
-	walk = func(b, pred *ssa.BasicBlock, env map[ssa.Value]*term, pc []string, start int) {
+	var walk func(b, pred *ssa.BasicBlock, env map[ssa.Value]*term, pc []string, eff []effect, start int)
+	walk = func(b, pred *ssa.BasicBlock, env map[ssa.Value]*term, pc []string, eff []effect, start int) {
 		if fl.fail != "" || len(out) > fl.maxPaths {
 			if len(out) > fl.maxPaths {
 				fl.fail = "too many paths in " + shortFn(f)
@@ -218,6 +255,12 @@ func (fl *flattener) run(f *ssa.Function, bind map[ssa.Value]*term, depth int) [
 		}
 		for i := start; i < len(b.Instrs); i++ {
 			switch in := b.Instrs[i].(type) {
+			case *ssa.Store:
+				e := ev()
+				ap := strings.TrimPrefix(e.path(in.Addr), "&")
+				if !strings.HasPrefix(ap, "phi:") {
+					eff = append(append([]effect{}, eff...), effect{ap, e.eval(in.Val)})
+				}
 			case *ssa.Call:
 				g := calleeOf(in)
 				if g == nil || !inAnalysed(g) || len(g.Blocks) == 0 || depth >= fl.maxDepth || hasLoop(g) || len(g.Blocks) == 1 || (fl.scope != nil && !fl.scope(g)) {
@@ -244,6 +287,7 @@ func (fl *flattener) run(f *ssa.Function, bind map[ssa.Value]*term, depth int) [
 						out = append(out, fpath{pc: append(append([]string{}, pc...), sp.pc...), panics: true})
 						continue
 					}
+					eff2 := append(append([]effect{}, eff...), sp.effects...)
 					env2 := copyEnv(env)
 					if len(sp.results) == 1 {
 						env2[in] = sp.results[0]
@@ -253,23 +297,23 @@ func (fl *flattener) run(f *ssa.Function, bind map[ssa.Value]*term, depth int) [
 							env2[ex] = sp.results[ex.Index]
 						}
 					}
-					walk(b, pred, env2, append(append([]string{}, pc...), sp.pc...), i+1)
+					walk(b, pred, env2, append(append([]string{}, pc...), sp.pc...), eff2, i+1)
 				}
 				return
 			case *ssa.If:
 				t := ev().eval(in.Cond)
 				switch foldCond(t) {
 				case 1:
-					walk(b.Succs[0], b, env, pc, 0)
+					walk(b.Succs[0], b, env, pc, eff, 0)
 				case 0:
-					walk(b.Succs[1], b, env, pc, 0)
+					walk(b.Succs[1], b, env, pc, eff, 0)
 				default:
-					walk(b.Succs[0], b, env, append(append([]string{}, pc...), canonCond(t, false)), 0)
-					walk(b.Succs[1], b, env, append(append([]string{}, pc...), canonCond(t, true)), 0)
+					walk(b.Succs[0], b, env, append(append([]string{}, pc...), canonCond(t, false)), eff, 0)
+					walk(b.Succs[1], b, env, append(append([]string{}, pc...), canonCond(t, true)), eff, 0)
 				}
 				return
 			case *ssa.Jump:
-				walk(b.Succs[0], b, env, pc, 0)
+				walk(b.Succs[0], b, env, pc, eff, 0)
 				return
 			case *ssa.Return:
 				e := ev()
@@ -277,7 +321,7 @@ func (fl *flattener) run(f *ssa.Function, bind map[ssa.Value]*term, depth int) [
 				for _, r := range in.Results {
 					res = append(res, e.eval(r))
 				}
-				out = append(out, fpath{pc: append([]string{}, pc...), results: res})
+				out = append(out, fpath{pc: append([]string{}, pc...), results: res, effects: eff})
 				return
 			case *ssa.Panic:
 				out = append(out, fpath{pc: append([]string{}, pc...), panics: true})
@@ -289,7 +333,7 @@ func (fl *flattener) run(f *ssa.Function, bind map[ssa.Value]*term, depth int) [
 	for k, v := range bind {
 		env[k] = v
 	}
-	walk(f.Blocks[0], nil, env, nil, 0)
+	walk(f.Blocks[0], nil, env, nil, nil, 0)
 	return out
 }
 
